@@ -10,7 +10,7 @@ This says nothing about /repo itself, so it never produces a VIOLATION line and 
 is printed as `SELFTEST <prop> <mutant>: detected|MISSED|skipped(...)` and recorded in the evidence file. `./selftest`
 runs it for all properties and exits non-zero if any mutant is missed.
 """
-import json, os, shutil, subprocess, sys, tempfile
+import gc, json, os, shutil, subprocess, sys, tempfile
 
 from . import facts, core
 
@@ -127,6 +127,8 @@ def run_one(prop, m):
         return res
     finally:
         shutil.rmtree(scratch, ignore_errors=True)
+        prog = ctx = None       # Program <-> Body reference cycles: collect now, a variant's program is ~300 MB
+        gc.collect()
 
 
 def run(prop):
